@@ -143,10 +143,10 @@ CHECKS = {
     "C14": {
         "groups": [
             {"pkg": "Havoc/pkg/profile/yaotl/hclsyntax", "entries": ["H_c14_strlit"], "shards": 3},
-            {"pkg": "Havoc/pkg/profile/yaotl/hclsyntax", "entries": ["H_c14_profile_string"], "shards": 5, "flags": ["-init", "Havoc/pkg/profile/yaotl,golang.org/x/text/unicode/norm,github.com/zclconf/go-cty/...,math/big,github.com/agext/levenshtein"]},
+            {"pkg": "Havoc/pkg/profile/yaotl/hclsyntax", "entries": ["H_c14_profile_string"], "shards": 6, "flags": ["-init", "Havoc/pkg/profile/yaotl,golang.org/x/text/unicode/norm,github.com/zclconf/go-cty/...,math/big,github.com/agext/levenshtein"]},
         ],
-        "bounds": "string literal spelling kernel: values of 0..2 arbitrary bytes, each written raw (ASCII, where legal), as \\n \\r \\t \\\" \\\\, or as \\xHH in upper or lower case, through scanStringLit + ParseStringLiteralToken. End to end through the real scanner, parser and template evaluation (ParseConfig -> Body -> Attribute.Expr.Value / block labels): values of 0..2 (thorough 0..3) arbitrary 7-bit bytes in every accepted spelling, as a top-level attribute, as an attribute inside a labelled block after a comment and a blank line, between the escaped template markers $${ and %%{, and as a block label; a lone $ or % as last character; as a heredoc body of 1..2 (thorough 1..3) arbitrary printable characters or line breaks.",
-        "outside": "everything decoded through gohcl/cty/reflection: schema, required/unknown attributes, numbers as strings, repeated blocks, wrong-kind values (DESIGN.md C14); indented heredocs; non-ASCII values",
+        "bounds": "string literal spelling kernel: values of 0..2 arbitrary bytes, each written raw (ASCII, where legal), as \\n \\r \\t \\\" \\\\, or as \\xHH in upper or lower case, through scanStringLit + ParseStringLiteralToken. End to end through the real scanner, parser and template evaluation (ParseConfig -> Body -> Attribute.Expr.Value / block labels): values of 0..2 (thorough 0..3) arbitrary 7-bit bytes in every accepted spelling, as a top-level attribute, as an attribute inside a labelled block after a comment and a blank line, between the escaped template markers $${ and %%{, and as a block label; a lone $ or % as last character; as a heredoc body of 1..2 (thorough 1..3) arbitrary printable characters or line breaks, plain and indented (<<-).",
+        "outside": "everything decoded through gohcl/cty/reflection: schema, required/unknown attributes, numbers as strings, repeated blocks, wrong-kind values (DESIGN.md C14); non-ASCII values",
         "min_completed": 3,
     },
     "C11": {
